@@ -1020,6 +1020,11 @@ class StateSummary:
                 e = ends[0]
                 kind = 'early' if e.k == 0 and e.base in ('entry', 'loop') else ('late' if e.k == -1 and e.base in ('entry', 'loop') else repr(e))
                 self.record = (ctxs[0], kind)
+            elif (len(ends), len(ctxs)) != (0, 0):
+                # an end without a context, a context (re)set without an end, or several of them: not a record the graph
+                # could describe.  Keep it visible so that the comparisons with the graph (G19) and with the other
+                # back end (G8a) report the state instead of treating it as "records nothing".
+                self.record = ('?', 'irregular: %d end(s), context set to %s' % (len(ends), list(ctxs)))
         for p in self.byte_paths:
             if p.outcome[0] == 'goto':
                 for b in p.bytes:
